@@ -330,10 +330,21 @@ class Interp(object):
                 pass
             else:
                 return [(st, Raised('TypeError', 'unexpected keyword %s for %s' % (sorted(kw), frame.qual())))]
-        if _is_generator(fn):
-            raise Unsupported('generator %s has no summary' % frame.qual())
+        gen = _is_generator(fn)
+        if gen:
+            # a generator is run to completion; its yields are collected in order
+            goid = st.new_oid('list', 'yields@%s' % fn.name)
+            st.seqs[goid] = ()
+            env['@yield'] = Obj(goid)
         out = []
         for (s2, e2, oc) in self.block(st, env, fn.body, frame):
+            if gen:
+                if oc is not None and oc[0] == 'raise':
+                    out.append((s2, oc[1]))
+                else:
+                    from .values import IterV
+                    out.append((s2, IterV(s2.seqs[goid], 'generator:%s' % fn.name)))
+                continue
             if oc is None:
                 out.append((s2, NONE))
             elif oc[0] == 'ret':
